@@ -338,6 +338,6 @@ pub fn run(ctx: &mut Ctx) {
     ctx.rule = "recording Conditional (answer = injective function of call number, index and the state it was given), state types f64/f32/i32/u8, dims 1..64, 1..8 chains stepped individually in a generated schedule, through GibbsSampler.chains and stand-alone chains; joint tables on {0..2}^d (d<=3, correlated, with zero cells) with all scripted outcome tuples enumerated; non-trivial = dim >= 2 (conditioning on another coordinate) / joint that is not a product; distinct by case fingerprint".into();
     ctx.assume("the scan order is not fixed by the statement: any permutation of the coordinates is accepted");
     let t = ctx.tier;
-    ctx.section("sweep", "order-agnostic model of a sweep: d calls, indices a permutation, each `given` = start state with earlier refreshes applied, final state, nothing else changes", t.pick(20_000, 2_000_000), 16, strategy, check);
-    ctx.section("joint-invariance", "exact one-step kernel from enumerated conditional outcomes (probabilities evaluated at the `given` the library passed): pi P = pi to 1e-12", t.pick(300, 30_000), 16, joint_strategy, check_joint);
+    ctx.section("sweep", "order-agnostic model of a sweep: d calls, indices a permutation, each `given` = start state with earlier refreshes applied, final state, nothing else changes", t.pick(400_000, 12_000_000), 16, strategy, check);
+    ctx.section("joint-invariance", "exact one-step kernel from enumerated conditional outcomes (probabilities evaluated at the `given` the library passed): pi P = pi to 1e-12", t.pick(6_000, 200_000), 16, joint_strategy, check_joint);
 }
